@@ -1144,6 +1144,7 @@ class Model:
         n0 = len(s2.pc)
         js, guards, marks = [], [], []          # marks: (length of the path condition, number of guards) after each guard was added
         saved = len(ex.guards)
+        pr0 = len(ex.pending_raises)
         try:
             for g in e.generators:
                 if getattr(g, "is_async", 0):
@@ -1179,6 +1180,12 @@ class Model:
         raw = list(s2.pc[n0:])
         lifted = lift_fresh(mark, js, raw + guards + [val.term])
         facts, lguards, vterm = lifted[:len(raw)], lifted[len(raw):-1], lifted[-1]
+        if len(ex.pending_raises) > pr0:
+            # a call that may raise inside the comprehension: the statement raises iff it does for SOME binding of the loop variables
+            # (so the normal path knows it did for none)
+            pend = ex.pending_raises[pr0:]
+            conds = lift_fresh(mark, js, [c_ for (c_, _e, _n) in pend])
+            ex.pending_raises[pr0:] = [(z3.Exists(js, c_), e_, n_) for c_, (_c, e_, n_) in zip(conds, pend)]
         guard = z3.And(lguards)
         st.facts |= s2.facts
         for idx, f in enumerate(facts):
@@ -1759,7 +1766,19 @@ def _b_set(model, ex, args, kwargs, st, node):
         # {elt(x) for x in it}: membership characterised pointwise
         _, gn, env = g.py
         if len(gn.generators) != 1 or gn.generators[0].ifs:
-            raise Unsupported("set(genexp) with filters / nested loops")
+            # filters / nested loops: the same value as the set comprehension {elt for ... if ...}, evaluated in the environment the genexp captured
+            s2 = st.fork()
+            s2.env = dict(env)
+            n0 = len(s2.pc)
+            sc = ast.SetComp(elt=gn.elt, generators=gn.generators)
+            ast.copy_location(sc, gn)
+            r = model.set_comprehension(ex, sc, s2)
+            if r is None:
+                raise Unsupported("set(genexp) with filters / nested loops outside the modelled forms")
+            for f in s2.pc[n0:]:
+                st.assume(f)
+            st.facts |= s2.facts
+            return r
         comp = gn.generators[0]
         s2 = st.fork()
         s2.env = dict(env)
